@@ -47,6 +47,7 @@ class Exec(ExecBase):
         self.decoded = 0
         self.ended_by_rejection = False
         self.resynced_after_rejection = False
+        self.other_liquid = False
         self.outcomes = []
         self.probes = {}
 
@@ -93,6 +94,7 @@ def execute(world, opsource):
         robot = Robot(device, world["labware"], per_record_slack=slack, eps=eps, track_comp=track)
         name_map = resolve_silent_names(sess, robot)
         provs = []  # provenance per record index
+        orobots, oseen = [], []  # robots of further worklists that work on the same labware objects; their cursors
         seen = 0
         nops = 0
         body_done = False
@@ -107,7 +109,21 @@ def execute(world, opsource):
                     res.ops.append(op)
                     out = sess.step(op)
                     res.outcomes.append(out.exc_type if not out.ok else "ok")
-                    liquid = op["op"] in ("aspirate", "dispense", "transfer", "distribute")
+                    via = op["op"] == "via_other"
+                    if op["op"] == "other_worklist" and out.ok:
+                        # a second robot (possibly of the other kind) working on the very same labware objects
+                        rk = Robot(op.get("device", device), world["labware"], per_record_slack=slack, eps=eps, track_comp=track)
+                        rk.labs = robot.labs
+                        rk.excursions = robot.excursions
+                        orobots.append(rk)
+                        oseen.append(len(sess.others[-1]))
+                    if via:
+                        if not out.ok or op["k"] >= len(orobots):
+                            res.ended_by_rejection = True
+                            break
+                        res.other_liquid = True
+                    eop = op["inner"] if via else op
+                    liquid = eop["op"] in ("aspirate", "dispense", "transfer", "distribute")
                     if not out.ok:
                         if liquid or len(sess.wl) != seen:
                             # the statement is about successful sequences: a rejected liquid operation leaves the
@@ -135,11 +151,19 @@ def execute(world, opsource):
                         continue
                     recs = sess.records()
                     new = recs[seen:]
+                    rb = robot
+                    if via:
+                        orecs = [str(r) for r in sess.others[op["k"]]]
+                        new_other = orecs[oseen[op["k"]]:]
+                        oseen[op["k"]] = len(orecs)
+                        if new:
+                            fail("C01.route", i, op, "ok", f"an operation issued through another worklist appended {len(new)} records to this one")
+                        new, rb = new_other, orobots[op["k"]]
                     try:
-                        pl = opsmod.plan(op, sess.geos) if liquid else None
+                        pl = opsmod.plan(eop, sess.geos) if liquid else None
                     except opsmod.PlanInvalid:
                         pl = None
-                    pf = prov_for(op, pl) if pl is not None else (lambda j: None)
+                    pf = prov_for(eop, pl) if pl is not None else (lambda j: None)
                     effects = []
                     dcount = 0
                     desync = False
@@ -148,21 +172,22 @@ def execute(world, opsource):
                         if rec.startswith("D;"):
                             pr = pf(dcount)
                             dcount += 1
-                        provs.append(pr)
+                        if not via:
+                            provs.append(pr)
                         try:
-                            eff = robot.execute(rec, pr)
+                            eff = rb.execute(rec, pr)
                             if eff:
                                 res.decoded += 1
                             effects.append((rec, eff))
                         except DecodeError as e:
-                            fail("C01.decode", i, op, "ok", f"record {rec!r} cannot be executed on {device}: {e}",
+                            fail("C01.decode", i, op, "ok", f"record {rec!r} cannot be executed on {rb.device}: {e}",
                                  {"side": getattr(e, "side", None), "record_type": rec[:1], "record": rec})
                             desync = True
                     seen = len(recs)
                     if liquid:
                         res.ok_liquid += 1
                     if liquid and pl is not None and not desync:
-                        d = check_route(op, pl, effects, sess, slack, eps)
+                        d = check_route(eop, pl, effects, sess, slack, eps)
                         if d:
                             fail("C01.route", i, op, "ok", d)
                             desync = True
@@ -223,7 +248,7 @@ def execute(world, opsource):
             lines = text.split("\r\n") if text else []
             if lines != recs:
                 fail("C01.file", last, lop, "ok", f"the file holds {len(lines)} lines that differ from the {len(recs)} records")
-            elif not res.resynced_after_rejection:
+            elif not res.resynced_after_rejection and not res.other_liquid:
                 r2 = Robot(device, world["labware"], per_record_slack=slack, eps=eps, track_comp=track)
                 try:
                     for j, rec in enumerate(lines):
@@ -402,9 +427,26 @@ class Program:
             self.n = rng.randint(110, 280)  # quick tier: the occasional very long script (more than 100 / 256 steps)
 
     def source(self, i, sess):
+        op = self._source(i, sess)
+        self.last_op = op
+        return op
+
+    def _source(self, i, sess):
         if i >= self.n:
             return None
         rng, g = self.rng, self.gen
+        last = getattr(self, "last_op", None)
+        if last is not None and last["op"] in ("aspirate", "dispense", "transfer", "distribute") and rng.random() < 0.05 \
+                and sess.events and sess.events[-1][2] == "ok" and not last.get("vself"):
+            # the script repeats its previous call (a loop body executed twice) - verbatim, or without its label
+            import copy
+            rep = copy.deepcopy(last)
+            if rng.random() < 0.5:
+                if rep["op"] == "distribute":
+                    (rep.get("kw") or {}).pop("label", None)
+                elif rep.get("label"):
+                    rep["label"] = None
+            return rep
         r = rng.random()
         if r < 0.03:
             # a call of a form the library refuses (argument lengths that do not pair up): refused -> the run ends
@@ -424,6 +466,17 @@ class Program:
                 return g.gen_transfer(sess, rng.choice(["reject.underflow", "reject.overflow"]))
             kind = rng.choice(["aspirate", "dispense"])
             return g.gen_addremove(sess, kind, intent="reject.underflow" if kind == "aspirate" else "reject.overflow")
+        if r < 0.235 and len(self.world["labware"]) and rng.random() < 0.5:
+            # a second worklist object of the other device kind that works on the same labware objects
+            if not getattr(sess, "others", None):
+                from ..sim.geom import enc as _enc
+                w = self.world["worklist"]
+                other_dev = "fluent" if self.world["device"] == "evo" else "evo"
+                return {"op": "other_worklist", "device": other_dev if rng.random() < 0.8 else self.world["device"],
+                        "max_volume": w["max_volume"], "auto_split": w["auto_split"], "diti_mode": w["diti_mode"]}
+            q = rng.random()
+            inner = g.gen_transfer(sess, "ok") if q < 0.5 else g.gen_addremove(sess, rng.choice(["aspirate", "dispense"]), intent="ok")
+            return {"op": "via_other", "k": 0, "inner": inner}
         if r < 0.215:
             op = g.gen_self_volumes(sess)
             if op is not None:
